@@ -74,6 +74,16 @@ def install(s):
         cond = zb(c)
         e.check_vc(st, z3.Not(cond), 'assert', msg, cond)
     B['@__verif_assert'] = vassert
+    def vassert_env(e, st, a, ins):
+        # a claim about what the real code handed to an environment model (stub): a fact of the executed IR that the native build
+        # (which links the real library) cannot observe - confirmed in the encoding, kind 'env-contract'
+        c = a[0]; msg = e.cstr(st, a[1])
+        if isinstance(c, int):
+            if c: e.vc_count('env-contract', 'trivial'); return
+            e.check_vc(st, True, 'env-contract', msg); return
+        cond = zb(c)
+        e.check_vc(st, z3.Not(cond), 'env-contract', msg, cond)
+    B['@__verif_assert_env'] = vassert_env
     def cover(e, st, a, ins):
         lab = e.cstr(st, a[0]); e.covers[lab] = e.covers.get(lab, 0) + 1
     B['@__verif_cover'] = cover
